@@ -103,7 +103,7 @@ fn writer(tier: &str) -> Vec<String> {
 fn holder(tier: &str) -> Vec<String> {
     let mut progs = vec!["S1.S2.GG", "S1.GI.G", "S1S2.GG", "S1.S2G", "S1.IG", "S1.S2.G", "S1.G.I", "S1G.S2G", "S1.S2"];
     if tier == "thorough" {
-        progs.extend(["S1.S2.GIG", "S1G.S2G.GI", "S1.GIG.IG", "S1S2.GI.IG", "S1.S2.S3G", "S1I.S2G.GI"]);
+        progs.extend(["S1.S2.GIG", "S1G.S2G.GI", "S1.GIG.IG", "S1S2.GI.IG", "S1.S2.S3G", "S1I.S2G.GI", "S1.S2.S3", "S1.S2.G.I", "S1G.S2I.G"]);
     }
     let mut v: Vec<String> = progs.iter().map(|p| format!("holder:prog={}", p)).collect();
     v.push(format!("holderseq:depth={}", if tier == "thorough" { 6 } else { 4 }));
@@ -180,15 +180,15 @@ fn bounded(spec: String, tier: &str) -> String {
     let p = if threads == 0 {
         if w <= if th { 4 } else { 3 } {
             None
-        } else if w <= if th { 6 } else { 5 } {
+        } else if w <= if th { 7 } else { 5 } {
             Some(if th { 4 } else { 3 })
         } else {
             Some(if th { 3 } else { 2 })
         }
     } else if w <= 6 {
-        Some(if th { 3 } else { 2 })
+        Some(if th { 4 } else { 2 })
     } else if w <= 9 {
-        Some(2)
+        Some(if th { 3 } else { 2 })
     } else {
         Some(if th { 2 } else { 1 })
     };
@@ -243,9 +243,9 @@ fn c08(tier: &str) -> Vec<String> {
 fn c09(tier: &str) -> Vec<String> {
     let th = tier == "thorough";
     let mut v = vec![];
-    let kmax = if th { 4 } else { 3 };
+    let kmax = if th { 5 } else { 3 };
     for cap in ["0", "1", "2", "3", "u"] {
-        let c: usize = cap.parse().unwrap_or(3);
+        let c: usize = cap.parse().unwrap_or(if th { 4 } else { 3 });
         for k in 0..=(c + 1).min(kmax) {
             for sc in all_scripts(&['o', 'e', 'p'], k) {
                 let emits = "E0".repeat(k);
